@@ -9,7 +9,7 @@ LEVEL = "exploration"
 TECHNIQUE = "reference-model monitor: source-level stepping events and variable views from R5 vs the complete stepping run of the VM (every stop), under ASan+UBSan"
 FLAVOURS = [("asan", "generated")]
 RULE = ("generated programs in the one-statement-per-line layout without user macros (the +/- sugar allowed), spread over 1-3 files, plus a "
-        "family of repeated inclusions; the VM runs in stepping mode to the end (or to the stop limit) and the sequence of reported (file,line) must "
+        "family of repeated inclusions and sources with one dimension past 2^8 (variables, definitions, parameters, labels, nesting, call depth, identifier length, files, include depth); the VM runs in stepping mode to the end (or to the stop limit) and the sequence of reported (file,line) must "
         "equal the reference event sequence: simple statement lines, LOOP/WHILE header once per entry, END line once per exit through the "
         "condition, a program's END line before it returns, jump to a label stops on the label's line, never __standards__; at every stop each "
         "activation's view must contain every user variable of its routine with the reference value; "
@@ -26,6 +26,8 @@ def plan(tier, seed):
     specs.append({"seed": seed, "chunk": 0, "n": 40 if tier == "quick" else 400, "kind": "repeat"})
     for i in range(2 if tier == "quick" else 20):
         specs.append({"seed": seed, "chunk": i, "n": 50, "kind": "redef"})
+    for i in range(1 if tier == "quick" else 3):
+        specs.append({"seed": seed, "chunk": i, "n": 0, "kind": "scale"})
     return specs
 
 
@@ -42,6 +44,13 @@ def sources(spec):
             else:
                 files, main = layouts.split_lines(lines, r, max_files=3)
             out.append((files, main, "gen"))
+    elif spec["kind"] == "scale":
+        # ordinary one-statement-per-line sources with one dimension past 2^8: variables, definitions, parameters, labels,
+        # nesting, call depth, identifier length, files, include depth
+        for files, main, kind in programs.scale_sources(r, small=spec["chunk"] == 0):
+            if "macro" in kind or "one-line" in kind or kind.endswith("-4000") or kind.endswith("-70000"):
+                continue
+            out.append((files, main, kind))
     elif spec["kind"] == "redef":
         # a program name defined two or three times: same number of variables, another order of first mention
         for k in range(spec["n"]):
